@@ -1,11 +1,16 @@
 #!/bin/bash
-# usage: seedrun.sh <seed id> [PROP ...]  : apply /verif/seeded/<id>/patch.diff (or /tmp/seed_out) to /repo, run quick checks, restore
+# usage: seedrun.sh <seed id> [PROP ...]  : apply /verif/seeded/<id>/patch.diff (or /tmp/seed_out/<id>) to a scratch worktree of
+# /repo, run the quick checks against it (VERIF_REPO), remove the worktree.  /repo itself and /verif/evidence are not touched.
 S=$1; shift
 P=/verif/seeded/$S/patch.diff; [ -f $P ] || P=/tmp/seed_out/$S/patch.diff
 PROPS="$@"; [ -z "$PROPS" ] && PROPS=${S%%_*}
-git -C /repo apply $P || { echo "patch does not apply"; exit 9; }
+WT=/tmp/wt_seedrun_$S
+git -C /repo worktree remove --force $WT >/dev/null 2>&1
+git -C /repo worktree add --detach $WT HEAD -q || exit 9
+git -C $WT apply $P || { echo "patch does not apply"; git -C /repo worktree remove --force $WT; exit 9; }
 for PR in $PROPS; do
-  cd /verif && timeout 1500 /venv/bin/python -m vf.run $PR --tier ${TIER:-quick} 2>&1 | grep -E "^(VIOLATION|KNOWN|HARNESS|C[0-9]+ tier)" | cut -c1-260 | head -${LINES_OUT:-4}
+  cd /verif && VERIF_REPO=$WT VERIF_OUT=/tmp/vf_seed_out/$S timeout 2400 /venv/bin/python -m vf.run $PR --tier ${TIER:-quick} 2>&1 | grep -E "^(VIOLATION|KNOWN|HARNESS|C[0-9]+ tier)" | cut -c1-260 | head -${LINES_OUT:-4}
 done
-git -C /repo checkout -- .
-echo "seed $S done; repo dirty files: $(git -C /repo status --short | wc -l)"
+git -C /repo worktree remove --force $WT
+rm -rf /tmp/vf_seed_out/$S
+echo "seed $S done"
